@@ -349,53 +349,97 @@ static std::string trim_right(const unsigned char* p, size_t n)
 
 #define CALL(expr) (shim_enter_call(), rv = (expr), shim_leave_call(), rv)
 
-// Read attributes of one object individually: returns {type: [rv, hex|null, len]}
+// Read attributes of one object.  Batched: one size query for all plain attributes, one fetch; falls back to
+// one-by-one reads when the batched call answers something other than OK / SENSITIVE / TYPE_INVALID.
+// returns {type: [rv, hex|null|list, len]}; rv is per attribute (0, CKR_ATTRIBUTE_SENSITIVE/TYPE_INVALID merged as
+// "unavailable" = 0x12 in batched mode).
+static bool is_tpl_attr(CK_ULONG t) { return t == CKA_WRAP_TEMPLATE || t == CKA_UNWRAP_TEMPLATE || t == CKA_DERIVE_TEMPLATE; }
+
+static json read_one(CK_SESSION_HANDLE s, CK_OBJECT_HANDLE o, CK_ULONG t)
+{
+	CK_RV rv;
+	CK_ATTRIBUTE at = { t, NULL, 0 };
+	CALL(C_GetAttributeValue(s, o, &at, 1));
+	json e = json::array();
+	if (rv != CKR_OK || at.ulValueLen == (CK_ULONG)-1)
+	{
+		e.push_back(rv); e.push_back(nullptr); e.push_back(at.ulValueLen);
+		return e;
+	}
+	if (is_tpl_attr(t))
+	{
+		size_t n = at.ulValueLen / sizeof(CK_ATTRIBUTE);
+		std::vector<CK_ATTRIBUTE> inner(n);
+		for (size_t i = 0; i < n; i++) { inner[i].type = 0; inner[i].pValue = NULL; inner[i].ulValueLen = 0; }
+		at.pValue = n ? &inner[0] : NULL;
+		CALL(C_GetAttributeValue(s, o, &at, 1));
+		std::vector<std::vector<unsigned char> > bufs(n);
+		if (rv == CKR_OK)
+		{
+			for (size_t i = 0; i < n; i++) { bufs[i].resize(inner[i].ulValueLen + 1); inner[i].pValue = &bufs[i][0]; }
+			CALL(C_GetAttributeValue(s, o, &at, 1));
+		}
+		json lst = json::array();
+		if (rv == CKR_OK)
+			for (size_t i = 0; i < n; i++)
+				lst.push_back(json::array({ inner[i].type, hex(&bufs[i][0], inner[i].ulValueLen) }));
+		e.push_back(rv); e.push_back(lst); e.push_back(at.ulValueLen);
+		return e;
+	}
+	std::vector<unsigned char> buf(at.ulValueLen + 1);
+	at.pValue = &buf[0];
+	CALL(C_GetAttributeValue(s, o, &at, 1));
+	e.push_back(rv);
+	if (rv == CKR_OK && at.ulValueLen != (CK_ULONG)-1) e.push_back(hex(&buf[0], at.ulValueLen)); else e.push_back(nullptr);
+	e.push_back(at.ulValueLen);
+	return e;
+}
+
 static json read_attrs(CK_SESSION_HANDLE s, CK_OBJECT_HANDLE o, const json& types)
 {
 	json res = json::object();
 	CK_RV rv;
+	std::vector<CK_ULONG> plain;
 	for (const json& tj : types)
 	{
 		CK_ULONG t = tj.get<CK_ULONG>();
-		CK_ATTRIBUTE at = { t, NULL, 0 };
-		CALL(C_GetAttributeValue(s, o, &at, 1));
+		if (is_tpl_attr(t)) res[std::to_string(t)] = read_one(s, o, t);
+		else plain.push_back(t);
+	}
+	if (plain.empty()) return res;
+	std::vector<CK_ATTRIBUTE> at(plain.size());
+	for (size_t i = 0; i < plain.size(); i++) { at[i].type = plain[i]; at[i].pValue = NULL; at[i].ulValueLen = 0; }
+	CALL(C_GetAttributeValue(s, o, &at[0], at.size()));
+	bool batched = (rv == CKR_OK || rv == CKR_ATTRIBUTE_SENSITIVE || rv == CKR_ATTRIBUTE_TYPE_INVALID);
+	std::vector<std::vector<unsigned char> > bufs(plain.size());
+	if (batched)
+	{
+		for (size_t i = 0; i < plain.size(); i++)
+		{
+			if (at[i].ulValueLen == (CK_ULONG)-1) { at[i].pValue = NULL; at[i].ulValueLen = 0; continue; }
+			bufs[i].resize(at[i].ulValueLen + 1);
+			at[i].pValue = &bufs[i][0];
+		}
+		CALL(C_GetAttributeValue(s, o, &at[0], at.size()));
+		batched = (rv == CKR_OK || rv == CKR_ATTRIBUTE_SENSITIVE || rv == CKR_ATTRIBUTE_TYPE_INVALID);
+	}
+	if (!batched)
+	{
+		for (size_t i = 0; i < plain.size(); i++) res[std::to_string(plain[i])] = read_one(s, o, plain[i]);
+		return res;
+	}
+	for (size_t i = 0; i < plain.size(); i++)
+	{
 		json e = json::array();
-		if (rv != CKR_OK || at.ulValueLen == (CK_ULONG)-1)
+		if (at[i].ulValueLen == (CK_ULONG)-1 || at[i].pValue == NULL)
 		{
-			e.push_back(rv); e.push_back(nullptr); e.push_back(at.ulValueLen);
-			res[std::to_string(t)] = e;
-			continue;
+			e.push_back(CKR_ATTRIBUTE_TYPE_INVALID); e.push_back(nullptr); e.push_back((CK_ULONG)-1);
 		}
-		bool istpl = (t == CKA_WRAP_TEMPLATE || t == CKA_UNWRAP_TEMPLATE || t == CKA_DERIVE_TEMPLATE);
-		if (istpl)
+		else
 		{
-			size_t n = at.ulValueLen / sizeof(CK_ATTRIBUTE);
-			std::vector<CK_ATTRIBUTE> inner(n);
-			for (size_t i = 0; i < n; i++) { inner[i].type = 0; inner[i].pValue = NULL; inner[i].ulValueLen = 0; }
-			at.pValue = n ? &inner[0] : NULL;
-			// first pass: lengths (and types)
-			CALL(C_GetAttributeValue(s, o, &at, 1));
-			std::vector<std::vector<unsigned char> > bufs(n);
-			if (rv == CKR_OK)
-			{
-				for (size_t i = 0; i < n; i++) { bufs[i].resize(inner[i].ulValueLen + 1); inner[i].pValue = &bufs[i][0]; }
-				CALL(C_GetAttributeValue(s, o, &at, 1));
-			}
-			json lst = json::array();
-			if (rv == CKR_OK)
-				for (size_t i = 0; i < n; i++)
-					lst.push_back(json::array({ inner[i].type, hex(&bufs[i][0], inner[i].ulValueLen) }));
-			e.push_back(rv); e.push_back(lst); e.push_back(at.ulValueLen);
-			res[std::to_string(t)] = e;
-			continue;
+			e.push_back(CKR_OK); e.push_back(hex(&bufs[i][0], at[i].ulValueLen)); e.push_back(at[i].ulValueLen);
 		}
-		std::vector<unsigned char> buf(at.ulValueLen + 1);
-		at.pValue = &buf[0];
-		CALL(C_GetAttributeValue(s, o, &at, 1));
-		e.push_back(rv);
-		if (rv == CKR_OK && at.ulValueLen != (CK_ULONG)-1) e.push_back(hex(&buf[0], at.ulValueLen)); else e.push_back(nullptr);
-		e.push_back(at.ulValueLen);
-		res[std::to_string(t)] = e;
+		res[std::to_string(plain[i])] = e;
 	}
 	return res;
 }
